@@ -26,7 +26,7 @@ def seeded_table():
         if not mp.exists():
             continue
         j = json.loads(mp.read_text())
-        if name.startswith("fixrevert-"):
+        if name.startswith("fixrevert-") or name.startswith("benign-"):
             continue
         need = " ".join((j.get("needs_to_manifest") or "").split())
         m = re.search(r"Need(?:s|ed)[^:]*:(.*)", need)
@@ -47,6 +47,23 @@ def reverts_table():
         out.append(f"| {j.get('commit')} | {j.get('breaks')} | {j.get('subject', '')[:90]} | {j.get('detected_by') or ''} |")
     return "\n".join(out)
 
+def benign_table():
+    out = ["| refactoring | what it restructures | checks run (quick) | outcome |", "|---|---|---|---|"]
+    for d in sorted(glob.glob(str(V / "seeded/benign-*/"))):
+        mp = Path(d) / "meta.json"
+        if not mp.exists():
+            continue
+        j = json.loads(mp.read_text())
+        rd = Path(d) / "README.txt"
+        what = " ".join(rd.read_text().split())[:200] if rd.exists() else ""
+        cs = j.get("checks", {})
+        quiet = [p for p, v in cs.items() if v["class"] == "quiet"]
+        tie = [p for p, v in cs.items() if v["class"] == "tie-broken"]
+        fa = [p for p, v in cs.items() if v["class"] not in ("quiet", "tie-broken")]
+        res = (f"quiet: {' '.join(quiet)}" if quiet else "") + (f"; tie broken (no-failing-input-found): {' '.join(tie)}" if tie else "") + (f"; **FALSE ALARM**: {' '.join(fa)}" if fa else "")
+        out.append(f"| {os.path.basename(d.rstrip('/'))} | {what} | {' '.join(cs)} | {res.lstrip('; ')} |")
+    return "\n".join(out)
+
 def findings():
     j = json.loads((V / "known_findings.json").read_text())
     out = ["Known findings (recorded, not repaired):", ""]
@@ -58,7 +75,7 @@ def findings():
     return "\n".join(out)
 
 doc = (V / "DESIGN.md").read_text()
-for key, fn in (("props", props_table), ("seeded", seeded_table), ("reverts", reverts_table), ("findings", findings)):
+for key, fn in (("props", props_table), ("seeded", seeded_table), ("reverts", reverts_table), ("benign", benign_table), ("findings", findings)):
     b, e = f"<!-- BEGIN:{key} -->", f"<!-- END:{key} -->"
     if b in doc and e in doc:
         doc = doc[: doc.index(b) + len(b)] + "\n" + fn() + "\n" + doc[doc.index(e):]
